@@ -270,10 +270,19 @@ class Ref:
         self.obj, self.key = obj, key
 
     def get(self):
+        if isinstance(self.obj, dict):
+            v = self.obj[self.key]              # a local variable of the borrowing frame
+            return v.get() if isinstance(v, Ref) else v
         return self.obj.fields[self.key] if isinstance(self.obj, Adt) else self.obj.items[self.key]
 
     def set(self, v):
-        if isinstance(self.obj, Adt):
+        if isinstance(self.obj, dict):
+            cur = self.obj.get(self.key)
+            if isinstance(cur, Ref):
+                cur.set(v)
+            else:
+                self.obj[self.key] = v
+        elif isinstance(self.obj, Adt):
             self.obj.fields[self.key] = v
         else:
             self.obj.items[self.key] = v
@@ -542,6 +551,13 @@ class PE:
                     base = None
                 if isinstance(base, Adt) and inner["name"] in base.fields:
                     return Ref(base, inner["name"])
+            if inner.get("k") in ("Var", "Upvar") and inner["var"]["id"] in env:
+                cur = env[inner["var"]["id"]]
+                if isinstance(cur, Ref):
+                    return cur
+                if isinstance(cur, (int, bool, Sym, Lin, Wx)) or cur is None or isinstance(cur, tuple):
+                    # `&mut local` of a scalar: what the callee stores through it is the local's new value
+                    return Ref(env, inner["var"]["id"])
         return self.ev(e["e"], env)
 
     def x_Deref(self, e, env):
@@ -1012,7 +1028,7 @@ class PE:
         if name == "block_on":
             args = [self.force(a) for a in args]
         if self.call_hook is not None:
-            r = self.call_hook(d, res, args, e, env)
+            r = self.call_hook(d, res, [a.get() if isinstance(a, Ref) else a for a in args], e, env)
             if r is not None:
                 return r[0] if isinstance(r, list) else r
         # std helpers on concrete values
@@ -1223,6 +1239,19 @@ class PE:
             if bits:
                 n = bits // 8
                 return Tup([Sym(("be", vkey(a0), i, n)) for i in range(n)])     # byte i (most significant first) of an opaque integer
+        if name in ("try_into", "try_from") and len(args) == 1 and isinstance(a0, Tup) and "; " in (e.get("ty") or "") and "[" in (e.get("ty") or ""):
+            return ok(a0)                 # slice -> array of the same length (the length is the slice's own)
+        if name in ("from_be_bytes", "from_le_bytes", "from_ne_bytes") and isinstance(a0, Tup) and a0.items and \
+                all(isinstance(x, int) and not isinstance(x, bool) for x in a0.items):
+            bs = list(a0.items) if name == "from_be_bytes" else list(reversed(a0.items))
+            v_ = 0
+            for x in bs:
+                v_ = (v_ << 8) | (x & 0xFF)
+            return v_
+        if name in ("wrapping_sub", "wrapping_add", "wrapping_mul") and len(args) == 2 and all(isinstance(x, int) and not isinstance(x, bool) for x in args):
+            bits_ = INT_BITS.get(e["fn"].get("impl_self") or e.get("ty") or "", 64)
+            r_ = {"wrapping_sub": a0 - args[1], "wrapping_add": a0 + args[1], "wrapping_mul": a0 * args[1]}[name]
+            return r_ % (1 << bits_)
         if name == "from_be_bytes" and isinstance(a0, Tup) and a0.items and all(isinstance(x, Sym) for x in a0.items):
             return Sym(("from_be", tuple(vkey(x) for x in a0.items)))
         if name == "to_be_bytes" and isinstance(a0, int):
@@ -1265,6 +1294,19 @@ class PE:
             return some(items[args[1]]) if 0 <= args[1] < len(items) else NONE
         if name in ("first", "last") and len(args) == 1 and not is_iter:
             return (some(items[0 if name == "first" else -1]) if items else NONE)
+        if name in ("chunks", "chunks_exact") and len(args) == 2 and isinstance(args[1], int) and args[1] > 0 and not is_iter:
+            k_ = args[1]
+            full = len(items) // k_ * k_
+            parts = [Tup(items[i:i + k_]) for i in range(0, full, k_)]
+            rem = items[full:]
+            if name == "chunks" and rem:
+                parts.append(Tup(rem))
+                rem = []
+            return Adt("seq-iter", "It", {"0": Tup(parts), "rem": Tup(rem)})
+        if name in ("remainder", "into_remainder") and len(args) == 1 and is_iter:
+            return args[0].fields.get("rem", Tup([]))
+        if name in ("try_into", "try_from") and len(args) == 1 and not is_iter and "[" in (e.get("ty") or ""):
+            return ok(a0)                 # slice -> array of the same length
         if name in ("binary_search", "binary_search_by_key") and len(args) in (2, 3) and not is_iter:
             keys = [self.apply(args[2], [x]) for x in items] if name == "binary_search_by_key" else list(items)
             k_ = args[1]
